@@ -7,7 +7,7 @@
     error unwinds to the innermost handler" means, and it is proved here for
     every program, every stack and every amount of fuel that suffices. *)
 From Coq Require Import ZArith Bool List String Lia.
-From PV Require Import Model.Term Model.Unify Model.Clause Model.Machine.
+From PV Require Import Model.Term Model.Unify Model.Clause Model.Machine Proofs.Promise.
 Import ListNotations.
 Open Scope Z_scope.
 
@@ -199,4 +199,79 @@ Proof.
     all: try (apply RcPass; [discriminate | right; unfold handles; rewrite Hrec; cbn [ball_of]; rewrite Hu; reflexivity | unfold pass; rewrite Hex; eapply IHr; eassumption]).
     all: match type of H with context [call_goal ?a ?b ?c ?d ?e] => destruct (call_goal a b c d e) as [q st1] eqn:Hc end.
     all: eapply RcCaught; [exact Hex | unfold handles; rewrite Hrec; cbn [ball_of]; rewrite Hu; reflexivity | exact Hc | eapply IHf; eassumption].
+Qed.
+
+(** ---- consequences for cut (C03) ------------------------------------------------------ *)
+
+(** A cut addressed to promise c discards exactly the frames above the first
+    frame that stands for c, and that frame; everything older is kept and the
+    computation continues there. *)
+Lemma cut_discards_exactly :
+  forall c o above p below st r st',
+    stands_for c p = true ->
+    forallb (fun q => negb (stands_for c q)) above = true ->
+    (Resume (VCut c o) (above ++ p :: below) st r st' <-> Resume o below st r st').
+Proof.
+  intros c o above p below st r st' Hp Ha.
+  pose proof (pop_until_found c above p below Hp Ha) as Hpop.
+  split; intro H.
+  - inv H. rewrite Hpop in *. assumption.
+  - apply RsCut. rewrite Hpop. assumption.
+Qed.
+
+(** the frame for which a cut is meant never tries its remaining alternatives,
+    and frames in between are skipped without being resumed *)
+Lemma cut_skips_alternatives :
+  forall p c o st o' st', After p (VCut c o) st o' st' ->
+    st' = st /\ ((stands_for c p = true /\ o' = o) \/ (stands_for c p = false /\ o' = VCut c o)).
+Proof. intros p c o st o' st' H. inv H; auto. Qed.
+
+(** ---- consequences for catch/throw (C04) ------------------------------------------------ *)
+
+(** an error goes to the innermost frame that handles it: frames that do not
+    handle it are popped (their alternatives are lost), frames below the
+    handling one are untouched *)
+Lemma recover_innermost :
+  forall e above xs p below st recovery k env' f q st1 r st2,
+    e <> EFuel ->
+    (* no frame above p handles e, given the catch frames already known to have exited *)
+    (forall pre q0 post, above = pre ++ q0 :: post ->
+       p_exited q0 <> None \/ handles q0 e (fold_left (fun acc x => pass x acc) pre xs) = None) ->
+    p_exited p = None ->
+    handles p e (fold_left (fun acc x => pass x acc) above xs) = Some (recovery, k, env') ->
+    call_goal f recovery k env' st = (q, st1) ->
+    Run (q :: below) st1 r st2 ->
+    Recover e xs (above ++ p :: below) st r st2.
+Proof.
+  intros e above. induction above as [|a above IH]; intros xs p below st recovery k env' f q st1 r st2 He Hno Hex Hh Hc Hrun.
+  - cbn in *. eapply RcCaught; eassumption.
+  - cbn [app]. apply RcPass; [assumption | apply (Hno [] a above eq_refl) |].
+    eapply IH; try eassumption.
+    intros pre q0 post Heq. specialize (Hno (a :: pre) q0 post). cbn in Hno. apply Hno. rewrite Heq. reflexivity.
+Qed.
+
+(** a catch frame whose goal has exited (its id is in the exited set collected
+    on the way down) never handles the error, whatever its catcher *)
+Lemma exited_catch_inactive :
+  forall p e xs, In (p_id p) xs -> handles p e xs = None.
+Proof.
+  intros p e xs Hin. unfold handles.
+  assert (existsb (Z.eqb (p_id p)) xs = true) as ->.
+  { apply existsb_exists. exists (p_id p). split; [assumption | apply Z.eqb_refl]. }
+  destruct e; reflexivity.
+Qed.
+
+(** an uncaught error is the result of the run, carrying the ball *)
+Lemma uncaught_reaches_caller :
+  forall e xs stack st,
+    e <> EFuel ->
+    (forall pre q0 post, stack = pre ++ q0 :: post ->
+       p_exited q0 <> None \/ handles q0 e (fold_left (fun acc x => pass x acc) pre xs) = None) ->
+    Recover e xs stack st (FError e) st.
+Proof.
+  intros e xs stack. revert xs. induction stack as [|a stack IH]; intros xs st He Hno.
+  - apply RcNil. assumption.
+  - apply RcPass; [assumption | apply (Hno [] a stack eq_refl) |].
+    apply IH; [assumption|].
+    intros pre q0 post Heq. specialize (Hno (a :: pre) q0 post). cbn in Hno. apply Hno. rewrite Heq. reflexivity.
 Qed.
